@@ -421,7 +421,9 @@ func (e *env) expect(op Op, want kvmodel.Code, err error, sig string) {
 	if want.Has(got) {
 		return
 	}
-	if e.lenient && want.Has(kvmodel.OK) && err != nil {
+	if e.lenient && err != nil && (want.Has(kvmodel.OK) || got == kvmodel.Other) {
+		// fault injection: any operation may fail with a driver-specific error
+		// instead of its contract result; the closure gives up with that error
 		panic(lenientErr{err})
 	}
 	e.failf(sig, "%s: btcd returned %s (%v), contract (model) admits %s", op, got, err, want)
